@@ -15,58 +15,63 @@ Definition qry : string := "gRPC query response type: encoded for the client, ne
 Definition gjs : string := "gov GenesisState is encoded as JSON only (export-genesis, keys sorted by jsonpb); the binary form is never stored".
 
 Definition audited_sites : list audit := [
-  mkAudit "app/ante/ante.go" "CustodyDecorator.AnteHandle" KTimeNow "time.Now" 1 (Finding "custody-limits-wall-clock");
-  mkAudit "app/app.go" "BlockedAddresses" KMapRange "GetMaccPerms()" 1 (Harmless "fills a membership map");
-  mkAudit "app/app.go" "GetMaccPerms" KMapRange "maccPerms" 1 (Harmless "copies a map into a map");
-  mkAudit "app/app.go" "SekaiApp.ModuleAccountAddrs" KMapRange "maccPerms" 1 (Harmless "fills a membership map");
-  mkAudit "x/custody/types/custody.pb.go" "CustodyCustodianList.MarshalToSizedBuffer" KPbMap "m.Addresses" 1 (Finding "custody-map-encoding");
-  mkAudit "x/custody/types/custody.pb.go" "CustodyCustodianList.Size" KMapRange "m.Addresses" 1 (Harmless sz);
-  mkAudit "x/custody/types/custody.pb.go" "CustodyLimits.MarshalToSizedBuffer" KPbMap "m.Limits" 1 (Finding "custody-map-encoding");
-  mkAudit "x/custody/types/custody.pb.go" "CustodyLimits.Size" KMapRange "m.Limits" 1 (Harmless sz);
-  mkAudit "x/custody/types/custody.pb.go" "CustodyStatuses.MarshalToSizedBuffer" KPbMap "m.Statuses" 1 (Finding "custody-map-encoding");
-  mkAudit "x/custody/types/custody.pb.go" "CustodyStatuses.Size" KMapRange "m.Statuses" 1 (Harmless sz);
-  mkAudit "x/custody/types/custody.pb.go" "CustodyWhiteList.MarshalToSizedBuffer" KPbMap "m.Addresses" 1 (Finding "custody-map-encoding");
-  mkAudit "x/custody/types/custody.pb.go" "CustodyWhiteList.Size" KMapRange "m.Addresses" 1 (Harmless sz);
-  mkAudit "x/custody/types/tx.pb.go" "TransactionPool.MarshalToSizedBuffer" KPbMap "m.Record" 1 (Finding "custody-map-encoding");
-  mkAudit "x/custody/types/tx.pb.go" "TransactionPool.Size" KMapRange "m.Record" 1 (Harmless sz);
-  mkAudit "x/distributor/keeper/abci.go" "Keeper.BeginBlocker" KTimeNow "time.Now" 1 (Harmless tele);
-  mkAudit "x/evidence/abci.go" "BeginBlocker" KTimeNow "time.Now" 1 (Harmless tele);
-  mkAudit "x/evidence/module.go" "AppModule.RandomizedParams" KRand "math/rand.Rand" 1 (Harmless simu);
-  mkAudit "x/gov/abci.go" "EndBlocker" KTimeNow "time.Now" 1 (Finding "polls-wall-clock");
-  mkAudit "x/gov/genesis.go" "InitGenesis" KMapRange "genesisState.DataRegistry" 1 (Harmless "one store write per distinct key: the writes commute");
-  mkAudit "x/gov/genesis.go" "InitGenesis" KMapRange "genesisState.ProposalDurations" 1 (Finding "genesis-proposal-durations-map-range");
-  mkAudit "x/gov/genesis.go" "InitGenesis" KMapRange "genesisState.RolePermissions" 1 (Harmless "each role's keys are written from that role's slice only; roles commute");
-  mkAudit "x/gov/keeper/grpc_query.go" "Keeper.AllExecutionFees" KMapRange "kiratypes.MsgFuncIDMapping" 1 (Harmless "gRPC query only");
-  mkAudit "x/gov/keeper/msg_server.go" "msgServer.PollVote" KTimeNow "time.Now" 1 (Finding "polls-wall-clock");
-  mkAudit "x/gov/keeper/poll.go" "Keeper.PollCreate" KTimeNow "time.Now" 1 (Finding "polls-wall-clock");
-  mkAudit "x/gov/keeper/util.go" "CheckIfAllowedPermission" KMapRange "roles" 2 (Harmless "idempotent writes into a permission map: a whitelist pass, then a blacklist pass");
-  mkAudit "x/gov/types/genesis.pb.go" "GenesisState.MarshalToSizedBuffer" KPbMap "m.DataRegistry" 1 (Harmless gjs);
-  mkAudit "x/gov/types/genesis.pb.go" "GenesisState.MarshalToSizedBuffer" KPbMap "m.ProposalDurations" 1 (Harmless gjs);
-  mkAudit "x/gov/types/genesis.pb.go" "GenesisState.MarshalToSizedBuffer" KPbMap "m.RolePermissions" 1 (Harmless gjs);
-  mkAudit "x/gov/types/genesis.pb.go" "GenesisState.Size" KMapRange "m.DataRegistry" 1 (Harmless sz);
-  mkAudit "x/gov/types/genesis.pb.go" "GenesisState.Size" KMapRange "m.ProposalDurations" 1 (Harmless sz);
-  mkAudit "x/gov/types/genesis.pb.go" "GenesisState.Size" KMapRange "m.RolePermissions" 1 (Harmless sz);
-  mkAudit "x/gov/types/identity_registrar.go" "WrapInfos" KMapRange "infos" 1 (Harmless "only caller is x/gov/client/cli (builds a message on the client)");
-  mkAudit "x/gov/types/poll_vote.go" "CalculatedPollVotes.ProcessResult" KMapRange "c.votes" 2 (Harmless "order-independent: theorem C01_poll_tally_order_independent");
-  mkAudit "x/gov/types/query.pb.go" "QueryAllProposalDurationsResponse.MarshalToSizedBuffer" KPbMap "m.ProposalDurations" 1 (Harmless qry);
-  mkAudit "x/gov/types/query.pb.go" "QueryAllProposalDurationsResponse.Size" KMapRange "m.ProposalDurations" 1 (Harmless qry);
-  mkAudit "x/recovery/module.go" "AppModule.RandomizedParams" KRand "math/rand.Rand" 1 (Harmless simu);
-  mkAudit "x/slashing/abci.go" "BeginBlocker" KTimeNow "time.Now" 1 (Harmless tele);
-  mkAudit "x/slashing/module.go" "AppModule.RandomizedParams" KRand "math/rand.Rand" 1 (Harmless simu);
-  mkAudit "x/slashing/types/query.pb.go" "IdentityRecord.Equal" KMapRange "this.Infos" 1 (Harmless qry);
-  mkAudit "x/slashing/types/query.pb.go" "IdentityRecord.MarshalToSizedBuffer" KPbMap "m.Infos" 1 (Harmless qry);
-  mkAudit "x/slashing/types/query.pb.go" "IdentityRecord.Size" KMapRange "m.Infos" 1 (Harmless qry);
-  mkAudit "x/tokens/types/query.pb.go" "TokenInfosByDenomResponse.MarshalToSizedBuffer" KPbMap "m.Data" 1 (Harmless qry);
-  mkAudit "x/tokens/types/query.pb.go" "TokenInfosByDenomResponse.Size" KMapRange "m.Data" 1 (Harmless qry)
+  mkAudit "app/app.go" "BlockedAddresses" KMapRange "GetMaccPerms()" 1 "1e01a29695c7dbe7" (Harmless "fills a membership map");
+  mkAudit "app/app.go" "GetMaccPerms" KMapRange "maccPerms" 1 "65321bf763126ecf" (Harmless "copies a map into a map");
+  mkAudit "app/app.go" "SekaiApp.ModuleAccountAddrs" KMapRange "maccPerms" 1 "ae662819fb7c73d2" (Harmless "fills a membership map");
+  mkAudit "x/custody/types/custody.pb.go" "CustodyCustodianList.MarshalToSizedBuffer" KPbMap "m.Addresses" 1 "c8d33e4e0db2e7b7" (Finding "custody-map-encoding");
+  mkAudit "x/custody/types/custody.pb.go" "CustodyCustodianList.Size" KMapRange "m.Addresses" 1 "18d5d387c85fc459" (Harmless sz);
+  mkAudit "x/custody/types/custody.pb.go" "CustodyLimits.MarshalToSizedBuffer" KPbMap "m.Limits" 1 "925fd0ff71953fdb" (Finding "custody-map-encoding");
+  mkAudit "x/custody/types/custody.pb.go" "CustodyLimits.Size" KMapRange "m.Limits" 1 "800a288d311cacde" (Harmless sz);
+  mkAudit "x/custody/types/custody.pb.go" "CustodyStatuses.MarshalToSizedBuffer" KPbMap "m.Statuses" 1 "85614f6a0b3e21fa" (Finding "custody-map-encoding");
+  mkAudit "x/custody/types/custody.pb.go" "CustodyStatuses.Size" KMapRange "m.Statuses" 1 "21b12a6cf7ad16fe" (Harmless sz);
+  mkAudit "x/custody/types/custody.pb.go" "CustodyWhiteList.MarshalToSizedBuffer" KPbMap "m.Addresses" 1 "3ea5a3abeb0d9d50" (Finding "custody-map-encoding");
+  mkAudit "x/custody/types/custody.pb.go" "CustodyWhiteList.Size" KMapRange "m.Addresses" 1 "7204b107f848cdba" (Harmless sz);
+  mkAudit "x/custody/types/tx.pb.go" "TransactionPool.MarshalToSizedBuffer" KPbMap "m.Record" 1 "923f67b742e44b3d" (Finding "custody-map-encoding");
+  mkAudit "x/custody/types/tx.pb.go" "TransactionPool.Size" KMapRange "m.Record" 1 "d094288e62630bcc" (Harmless sz);
+  mkAudit "x/distributor/keeper/abci.go" "Keeper.BeginBlocker" KTimeNow "time.Now" 1 "92bfd685b2648183" (Harmless tele);
+  mkAudit "x/evidence/abci.go" "BeginBlocker" KTimeNow "time.Now" 1 "18897b690c06b9a3" (Harmless tele);
+  mkAudit "x/evidence/module.go" "AppModule.RandomizedParams" KRand "math/rand.Rand" 1 "af3ca6c58f9814fc" (Harmless simu);
+  mkAudit "x/gov/genesis.go" "InitGenesis" KMapRange "genesisState.DataRegistry" 1 "9fab551031a75cbb" (Harmless "one store write per distinct key: the writes commute");
+  mkAudit "x/gov/genesis.go" "InitGenesis" KMapRange "genesisState.ProposalDurations" 1 "9fab551031a75cbb" (Harmless "collects the keys only; they are sorted before use (commit f1cf68b)");
+  mkAudit "x/gov/genesis.go" "InitGenesis" KMapRange "genesisState.RolePermissions" 1 "9fab551031a75cbb" (Harmless "each role's keys are written from that role's slice only; roles commute");
+  mkAudit "x/gov/keeper/grpc_query.go" "Keeper.AllExecutionFees" KMapRange "kiratypes.MsgFuncIDMapping" 1 "0db0ac36ee111344" (Harmless "gRPC query only");
+  mkAudit "x/gov/keeper/util.go" "CheckIfAllowedPermission" KMapRange "roles" 2 "b81d052d3105cc53" (Harmless "idempotent writes into a permission map: a whitelist pass, then a blacklist pass");
+  mkAudit "x/gov/types/genesis.pb.go" "GenesisState.MarshalToSizedBuffer" KPbMap "m.DataRegistry" 1 "0b1e1d8c01deee09" (Harmless gjs);
+  mkAudit "x/gov/types/genesis.pb.go" "GenesisState.MarshalToSizedBuffer" KPbMap "m.ProposalDurations" 1 "0b1e1d8c01deee09" (Harmless gjs);
+  mkAudit "x/gov/types/genesis.pb.go" "GenesisState.MarshalToSizedBuffer" KPbMap "m.RolePermissions" 1 "0b1e1d8c01deee09" (Harmless gjs);
+  mkAudit "x/gov/types/genesis.pb.go" "GenesisState.Size" KMapRange "m.DataRegistry" 1 "483fb0c6b7300a79" (Harmless sz);
+  mkAudit "x/gov/types/genesis.pb.go" "GenesisState.Size" KMapRange "m.ProposalDurations" 1 "483fb0c6b7300a79" (Harmless sz);
+  mkAudit "x/gov/types/genesis.pb.go" "GenesisState.Size" KMapRange "m.RolePermissions" 1 "483fb0c6b7300a79" (Harmless sz);
+  mkAudit "x/gov/types/identity_registrar.go" "WrapInfos" KMapRange "infos" 1 "ed1fe314e8f0a81e" (Harmless "only caller is x/gov/client/cli (builds a message on the client)");
+  mkAudit "x/gov/types/poll_vote.go" "CalculatedPollVotes.ProcessResult" KMapRange "c.votes" 2 "0ca5b183bb587ad7" (Harmless "order-independent: theorem C01_poll_tally_order_independent");
+  mkAudit "x/gov/types/query.pb.go" "QueryAllProposalDurationsResponse.MarshalToSizedBuffer" KPbMap "m.ProposalDurations" 1 "bc217bb85506cce3" (Harmless qry);
+  mkAudit "x/gov/types/query.pb.go" "QueryAllProposalDurationsResponse.Size" KMapRange "m.ProposalDurations" 1 "653bf361814c668d" (Harmless qry);
+  mkAudit "x/recovery/module.go" "AppModule.RandomizedParams" KRand "math/rand.Rand" 1 "f3a129412892fe14" (Harmless simu);
+  mkAudit "x/slashing/abci.go" "BeginBlocker" KTimeNow "time.Now" 1 "349ccd2babeaae00" (Harmless tele);
+  mkAudit "x/slashing/module.go" "AppModule.RandomizedParams" KRand "math/rand.Rand" 1 "f3a129412892fe14" (Harmless simu);
+  mkAudit "x/slashing/types/query.pb.go" "IdentityRecord.Equal" KMapRange "this.Infos" 1 "1e99e072915a3867" (Harmless qry);
+  mkAudit "x/slashing/types/query.pb.go" "IdentityRecord.MarshalToSizedBuffer" KPbMap "m.Infos" 1 "fceb203cf9c59f80" (Harmless qry);
+  mkAudit "x/slashing/types/query.pb.go" "IdentityRecord.Size" KMapRange "m.Infos" 1 "10b78b0574725511" (Harmless qry);
+  mkAudit "x/tokens/types/query.pb.go" "TokenInfosByDenomResponse.MarshalToSizedBuffer" KPbMap "m.Data" 1 "10195f4f15eb3829" (Harmless qry);
+  mkAudit "x/tokens/types/query.pb.go" "TokenInfosByDenomResponse.Size" KMapRange "m.Data" 1 "410ef602a129e5a1" (Harmless qry)
 ]%string.
 
 (* Every source of replica nondeterminism the translator finds in the tree (time.Now/Since/Until,
    math/rand + crypto/rand, range over a Go map, protobuf Marshal ranging a map<> field, maps.Keys,
-   go statements, os environment, package runtime; all non-test, non-client code under x/ and app/)
-   is an audited entry: harmless for a stated reason, or a recorded finding.  A NEW time.Now() or
-   map range in keeper code makes this theorem fail to check. *)
-Theorem C01_sites_covered : forallb (audited audited_sites) sites = true /\ gen_errors = [].
-Proof. split; vm_compute; reflexivity. Qed.
+   go statements, os environment / host time zone, package runtime; all non-test, non-client code
+   under x/, app/ and types/) is an audited entry: harmless for a stated reason, or a recorded
+   finding.  The table is exact in both directions and pinned to the code:
+   - a NEW time.Now() / map range in keeper code is not covered          (first conjunct),
+   - an entry whose site has gone, or whose number of sites changed, is stale   (second conjunct),
+   - an entry whose owning function (or a same-package function it calls) was edited since the
+     verdict was given has a different fingerprint                          (third conjunct);
+   each of them makes this theorem fail to check. *)
+Theorem C01_sites_covered :
+  forallb (audited audited_sites) sites = true /\
+  forallb (audit_exact sites) audited_sites = true /\
+  forallb (audit_fp_ok func_fingerprints) audited_sites = true /\
+  gen_errors = [].
+Proof. repeat split; vm_compute; reflexivity. Qed.
 Print Assumptions C01_sites_covered.
 
 (* begin-blocker, end-blocker and init-genesis orders are fixed lists naming the same modules once *)
@@ -89,7 +94,38 @@ Theorem C01_deterministic_iff_no_env_site : forall c,
 Proof. exact deterministic_iff_clean. Qed.
 Print Assumptions C01_deterministic_iff_no_env_site.
 
-(* The code as it is (all five sites live) -- the full statement is refuted, one witness per mechanism *)
+(* ---- the tree as it is now (site configuration extracted by the translator on this run) ----
+   No wall-clock site is live any more ... *)
+Theorem C01_current_tree_no_wall_clock_site : wall_free site_cfg = true.
+Proof. vm_compute. reflexivity. Qed.
+Print Assumptions C01_current_tree_no_wall_clock_site.
+
+(* ... so for ALL histories (custody map writes included) and all genesis states the per-block
+   observations are independent of the wall clock: two environments that agree on the map iteration
+   orders give the same run *)
+Theorem C01_current_tree_wall_clock_independent : forall e1 e2 g bs,
+  (forall k l, map_order e1 k l = map_order e2 k l) -> run site_cfg e1 g bs = run site_cfg e2 g bs.
+Proof. exact (run_wall_clock_independent site_cfg C01_current_tree_no_wall_clock_site). Qed.
+Print Assumptions C01_current_tree_wall_clock_independent.
+
+(* ... and every history without a custody map<> write is fully deterministic, from any genesis
+   (the guard [quiescent] of the partial theorem is now always true) *)
+Theorem C01_current_tree_deterministic_without_custody_maps : forall e1 e2 g bs,
+  history_envfree site_cfg bs = true -> run site_cfg e1 g bs = run site_cfg e2 g bs.
+Proof.
+  intros e1 e2 g bs H. apply run_deterministic_partial; [exact H|].
+  unfold quiescent. replace (poll_end_wall site_cfg) with false by (vm_compute; reflexivity). reflexivity.
+Qed.
+Print Assumptions C01_current_tree_deterministic_without_custody_maps.
+
+(* the one environment dependence left: custody records are marshalled in Go map order *)
+Theorem C01_custody_map_encoding_after_fix_refuted :
+  exists e1 e2 g bs, wall_clock e1 = wall_clock e2 /\ run marshal_cfg e1 g bs <> run marshal_cfg e2 g bs.
+Proof. exact custody_map_encoding_after_fix_refuted. Qed.
+Print Assumptions C01_custody_map_encoding_after_fix_refuted.
+
+(* The tree before commit c7688a1 (all five sites live): the full statement is refuted, one witness
+   per mechanism (kept: they are what the model predicts should a wall-clock read come back) *)
 Theorem C01_polls_depend_on_wall_clock_refuted :
   exists e1 e2 g bs, run wall_cfg e1 g bs <> run wall_cfg e2 g bs.
 Proof. exact polls_depend_on_wall_clock_refuted. Qed.
@@ -152,6 +188,12 @@ Example C01_partial_hypotheses_satisfiable :
 Proof. exact partial_hypotheses_satisfiable. Qed.
 
 (* the site table is not empty and the checker flags an unaudited site *)
+(* a stale entry and an edited function are both flagged *)
+Example C01_stale_and_edited_entries_flagged :
+  audit_exact sites (mkAudit "x/gov/keeper/poll.go" "Keeper.PollCreate" KTimeNow "time.Now" 1 "" (Finding "gone")) = false /\
+  audit_fp_ok func_fingerprints (mkAudit "x/gov/keeper/util.go" "CheckIfAllowedPermission" KMapRange "roles" 2 "0000000000000000" (Harmless "x")) = false.
+Proof. split; vm_compute; reflexivity. Qed.
+
 Example C01_site_table_nontrivial :
   Nat.leb 20 (List.length sites) = true /\
   audited audited_sites (mkSite "x/bank/keeper/send.go" "Keeper.SendCoins" KTimeNow "time.Now" 0) = false.
